@@ -1,6 +1,6 @@
 """Claim texts for MANIFEST.json (tools/gen_manifest.py writes the file)."""
 
-REPO_FIX_COMMITS = ["d6b93bf (C15)", "bf9879b (C18)", "00db926 (C17)", "69cf7c1 (C14)", "6437988 (C11)", "98f4235 (C11)", "997be27 (C12)", "fbe6454 (C02)", "17a33b1 (C01)", "bcface1 (C01)", "7c09e08 (C08)", "d75f5c1 (C05)", "66c726b (C05,C09)"]
+REPO_FIX_COMMITS = ["d6b93bf (C15)", "bf9879b (C18)", "00db926 (C17)", "69cf7c1 (C14)", "6437988 (C11)", "98f4235 (C11)", "997be27 (C12)", "fbe6454 (C02)", "17a33b1 (C01)", "bcface1 (C01)", "7c09e08 (C08)", "d75f5c1 (C05)", "66c726b (C05,C09)", "cd30f54 (C06)", "a1bd023 (C06)", "41fa818 (C07)", "9927cea (C07)", "4b8e704 (C07)"]
 
 _PENDING = "checker for this property is not built yet in this round (see DESIGN.md section 3 for the planned rule)"
 
@@ -127,6 +127,51 @@ CLAIMS.update({
              "dispatch is read only through the operators it calls)."),
 })
 
+CLAIMS.update({
+    "C05": dict(
+        technique="kind dataflow (raw vs normalised time) from every time-advance expression to its sink + sibling agreement of the two normalisation sites",
+        design_ref="DESIGN.md 2.5, 3/C05",
+        text="Discovers every time-advance expression (time +/- dt) in the SD engine and follows it to its consumer: it must pass "
+             "through normalize() before it becomes a range bound, a dictionary key, the stored session clock or a comparison "
+             "operand; every range over the grid is inclusive up to a plain stop time; timerange and Model.memoize normalise with "
+             "the same (base=dt, offset=start, precision=max(scale(start), scale(dt))); the memo is probed, evaluated and filled "
+             "under the normalised key; result rows and session logs are keyed by the range variable / the step being run; a "
+             "session step simulates exactly [step, step]; time comparisons inside generated text must not use raw differences "
+             "(fails for Delay: known finding).",
+        note="Not decided: that normalize()/precision_and_scale round correctly for every (start, dt, i) - float arithmetic on "
+             "runtime values; labels of agent-based runs."),
+    "C06": dict(
+        technique="field-sensitive alias/ownership analysis of scenario construction x in-place mutators among the scenario operations",
+        design_ref="DESIGN.md 2.6, 3/C06",
+        text="Decides for every operation history: no table of a scenario model's result-relevant state (equations, memo, points, "
+             "constants, stocks, flows, biflows, converters, functions, fn) is shared by reference with the source model and written "
+             "in place by a scenario operation (16 operations from registration to REST settings); settings are merged into model "
+             "tables, never substituted; every registered scenario gets its own clone made inside the loop; hybrid managers deep-copy "
+             "or construct per scenario; mutable default arguments that are stored and written in place are passed explicitly at every "
+             "in-package construction.",
+        note="Not decided: equality with a freshly built model (numeric); aliasing introduced by callers; the shared _elements tables "
+             "(written only by the modelling API, a note)."),
+    "C07": dict(
+        technique="key-table and attribute def-use agreement per (setting kind x delivery channel); sibling comparison of runners and of base-value merging; binding-time rule on templates",
+        design_ref="DESIGN.md 2.7, 3/C07",
+        text="Decides the product space kind x channel structurally: each of registration, session settings, REST settings and per-step "
+             "settings reads each setting key and stores it into the same-named field (no cross-wiring, no missing kind); both runners "
+             "apply constants, points and run specs, wired name to name, before start(); change_runspecs writes exactly starttime/"
+             "stoptime/dt and every written attribute has a reader; add_scenarios and load_scenarios merge base values with overrides "
+             "winning; run specs from a scenario file are not overwritten unconditionally at instantiation; no run-spec number is "
+             "spliced into equation text at build time.",
+        note="Not decided: numeric equality with a directly built model; XMILE models' own run-spec handling."),
+    "C08": dict(
+        technique="must-call dataflow on the CFG of every definition-changing member + shape of the cache resets + lockset rule for worker threads",
+        design_ref="DESIGN.md 3/C08",
+        text="Decides: every SD-DSL member that recompiles an element's function calls model.reset_cache() on every path; both cache "
+             "resets empty every memo entry and the scenario reset drops the live simulation; REST settings and begin_session reset a "
+             "scenario's cache before/after re-parameterising it; a table probed and later filled by code reachable from a Thread "
+             "target started in a loop over one shared object is accessed under a lock (fails for Model.memoize: known finding, with the "
+             "reproducing stochastic model).",
+        note="Not decided: actual interleavings (model checking), numeric equality with a fresh model, direct edits of model.equations."),
+})
+
 NOT_APPLICABLE = {p: _PENDING for p in
-                  ["C03", "C04", "C05", "C06", "C07", "C08", "C09",
+                  ["C03", "C04", "C09",
                    "C16", "C19", "C20"]}
